@@ -367,7 +367,9 @@ def wrap_line(line: str) -> str:
     if len(line) < maxlen:
         line = ''.join(line)
         return line
-    line = textwrap.wrap(line, maxlen, subsequent_indent='  ', drop_whitespace=False, replace_whitespace=False)
+    # SHELXL reads 80 columns: a blank and two characters indentation in front of and ' =' behind each part have to fit.
+    line = textwrap.wrap(line, maxlen - 2, subsequent_indent='  ', drop_whitespace=False, replace_whitespace=False,
+                         break_long_words=False, break_on_hyphens=False, expand_tabs=False)
     if len(line) > 1:
         newline = []
         for n, ln in enumerate(line):
